@@ -65,7 +65,9 @@ fn check(bsize: usize, balign: usize) {
     // address -> index mapping of deallocate must agree with the index -> address mapping of allocate for every bucket)
     let victim = if kani::any() { a } else { last };
     unsafe { sut.deallocate_bucket(victim) };
-    let c = sut.allocate(req).unwrap();
+    let c = sut.allocate(req);
+    assert!(c.is_ok());      // the freed bucket is available again
+    let c = c.unwrap();
     assert!(c.as_ptr() as usize == victim.as_ptr() as usize);
     assert!(sut.allocate(req) == Err(AllocationError::OutOfMemory));
     kani::cover!(true);
